@@ -2,6 +2,7 @@ package main
 
 import (
 	"fmt"
+	"os"
 	"reflect"
 	"sort"
 	"strings"
@@ -433,4 +434,336 @@ func apiIniCase(c *Ctx, d *Decl) {
 		kinds += a.Kind + "@" + a.Home + ","
 	}
 	c.Held("api-added/applied", kinds)
+}
+
+// ---- a parser that consists of API-added options only (C05: value sources, C06: required) -------------------
+
+type miniOpt struct {
+	*apiOpt
+	Required bool
+	EnvKey   string // as given to the Option
+	EnvFull  string // with the env namespace of the home group
+	EnvDelim string
+	EnvVals  []string // nil = variable not set
+	CmdHome  bool
+}
+
+type miniParser struct {
+	P      *flags.Parser
+	Opts   []*miniOpt
+	HasCmd bool
+	Desc   []string
+}
+
+var miniSeq int
+
+func buildMini(r *Rand, forReq bool) *miniParser {
+	m := &miniParser{}
+	po := []flags.Options{flags.None, flags.PassDoubleDash, flags.HelpFlag, flags.IgnoreUnknown}[r.Intn(4)]
+	m.P = flags.NewNamedParser("mini", po)
+	m.Desc = append(m.Desc, "NewNamedParser(\"mini\", "+optionsString(po)+")")
+	var grp *flags.Group
+	gEnvNS, gNS := "", ""
+	if r.Chance(2, 3) {
+		grp, _ = m.P.AddGroup("Extra", "", &struct{}{})
+		if r.Bool() {
+			gEnvNS = "GNS"
+			grp.EnvNamespace = gEnvNS
+		}
+		if r.Bool() {
+			gNS = "ns"
+			grp.Namespace = gNS
+		}
+		m.Desc = append(m.Desc, fmt.Sprintf("AddGroup(\"Extra\") Namespace=%q EnvNamespace=%q", gNS, gEnvNS))
+	}
+	var cmd *flags.Command
+	if forReq && r.Bool() {
+		cmd, _ = m.P.AddCommand("run", "", "", &struct{}{})
+		m.P.SubcommandsOptional = true
+		m.HasCmd = true
+		m.Desc = append(m.Desc, "AddCommand(\"run\"), SubcommandsOptional")
+	}
+	n := r.Range(1, 3)
+	kinds := []string{"int", "string", "strs", "map", "dur", "float"}
+	for i := 0; i < n; i++ {
+		miniSeq++
+		a := &apiOpt{Long: fmt.Sprintf("xadd%d", i+1), Kind: kinds[r.Intn(len(kinds))]}
+		if r.Chance(1, 3) {
+			a.Short = apiShorts[i]
+		}
+		mo := &miniOpt{apiOpt: a}
+		a.Ptr = apiVar(a.Kind)
+		if forReq {
+			mo.Required = r.Chance(2, 3)
+		} else {
+			if r.Bool() {
+				switch a.Kind {
+				case "string":
+					a.Default = []string{"dflt"}
+				case "strs":
+					a.Default = []string{"d1", "d2"}
+				case "map":
+					a.Default = []string{"k:1"}
+				case "dur":
+					a.Default = []string{"3s"}
+				case "float":
+					a.Default = []string{"1.5"}
+				default:
+					a.Default = []string{"7"}
+				}
+			}
+			if (a.Kind == "strs" || a.Kind == "map") && r.Bool() {
+				a.Init = true
+				if a.Kind == "strs" {
+					a.Ptr.Elem().Set(reflect.ValueOf([]string{"old"}))
+				} else {
+					a.Ptr.Elem().Set(reflect.ValueOf(map[string]int{"old": 9}))
+				}
+			}
+			if r.Chance(2, 3) {
+				mo.EnvKey = fmt.Sprintf("VH_XADD_%d", i+1)
+				if (a.Kind == "strs" || a.Kind == "map") && r.Bool() {
+					mo.EnvDelim = []string{",", ";;"}[r.Intn(2)]
+				}
+			}
+		}
+		a.FO = &flags.Option{LongName: a.Long, ShortName: a.Short, Default: a.Default, Required: mo.Required, EnvDefaultKey: mo.EnvKey, EnvDefaultDelim: mo.EnvDelim}
+		mo.EnvFull = mo.EnvKey
+		a.Full = a.Long
+		switch x := r.Intn(3); {
+		case x == 1 && grp != nil:
+			grp.AddOption(a.FO, a.Ptr.Interface())
+			a.Home = "group Extra"
+			if gEnvNS != "" && mo.EnvKey != "" {
+				mo.EnvFull = gEnvNS + "_" + mo.EnvKey
+			}
+			if gNS != "" {
+				a.Full = gNS + "." + a.Long
+			}
+		case x == 2 && cmd != nil:
+			cmd.AddOption(a.FO, a.Ptr.Interface())
+			a.Home = "command run"
+			mo.CmdHome = true
+		default:
+			m.P.AddOption(a.FO, a.Ptr.Interface())
+			a.Home = "parser"
+		}
+		d := a.describe()
+		if mo.Required {
+			d += " Required"
+		}
+		if mo.EnvKey != "" {
+			d += fmt.Sprintf(" EnvDefaultKey=%q EnvDefaultDelim=%q (variable %s)", mo.EnvKey, mo.EnvDelim, mo.EnvFull)
+		}
+		m.Desc = append(m.Desc, d)
+		m.Opts = append(m.Opts, mo)
+	}
+	return m
+}
+
+func (m *miniParser) apiOpts() []*apiOpt {
+	var r []*apiOpt
+	for _, o := range m.Opts {
+		r = append(r, o.apiOpt)
+	}
+	return r
+}
+
+// canonOf: the canonical text of the value that the given texts denote for kind k (nil texts = "nothing")
+func canonTexts(kind string, texts []string) string {
+	switch kind {
+	case "strs":
+		return fmt.Sprintf("%q", texts)
+	case "map":
+		mm := map[string]int{}
+		for _, t := range texts {
+			kv := strings.SplitN(t, ":", 2)
+			var n int
+			fmt.Sscanf(kv[1], "%d", &n)
+			mm[kv[0]] = n
+		}
+		return canonIntMap(mm)
+	}
+	v := texts[len(texts)-1]
+	switch kind {
+	case "int", "u8":
+		var n int64
+		fmt.Sscanf(v, "%d", &n)
+		return fmt.Sprint(n)
+	case "float":
+		var f float64
+		fmt.Sscanf(v, "%g", &f)
+		return fmt.Sprint(f)
+	case "dur":
+		dv, _ := time.ParseDuration(v)
+		return dv.String()
+	}
+	return fmt.Sprintf("%q", v)
+}
+
+// apiMiniSources (C05): command line > environment > Default > what the program stored.
+func apiMiniSources(c *Ctx) {
+	r := c.Sub("api-mini")
+	m := buildMini(r, false)
+	want := map[*apiOpt]string{}
+	src := ""
+	var args []string
+	for _, o := range m.Opts {
+		if o.EnvKey != "" && r.Chance(2, 3) {
+			n := 1
+			if o.EnvDelim != "" {
+				n = r.Range(1, 3)
+			}
+			for i := 0; i < n; i++ {
+				vs := apiGood[o.Kind]
+				v := vs[r.Intn(len(vs))]
+				for v == "" {
+					v = vs[r.Intn(len(vs))]
+				}
+				o.EnvVals = append(o.EnvVals, v)
+			}
+			key, val := o.EnvFull, strings.Join(o.EnvVals, o.EnvDelim)
+			os.Setenv(key, val)
+			c.Defer(func() { os.Unsetenv(key) })
+			m.Desc = append(m.Desc, fmt.Sprintf("environment %s=%q", key, val))
+		}
+		var cli []string
+		if r.Chance(1, 2) {
+			for i, n := 0, r.Range(1, 2); i < n; i++ {
+				v := apiGood[o.Kind][r.Intn(len(apiGood[o.Kind]))]
+				cli = append(cli, v)
+				name := "--" + o.Full
+				if o.Short != 0 && r.Bool() {
+					name = "-" + string(o.Short)
+				}
+				args = append(args, name+"="+v)
+			}
+		}
+		switch {
+		case cli != nil:
+			want[o.apiOpt] = canonTexts(o.Kind, cli)
+			src += "cli,"
+		case o.EnvVals != nil:
+			want[o.apiOpt] = canonTexts(o.Kind, o.EnvVals)
+			src += "env,"
+		default:
+			// Default, else untouched: unsetWant
+			if len(o.Default) > 0 {
+				src += "default,"
+			} else {
+				src += "initial,"
+			}
+		}
+	}
+	for i := len(args) - 1; i > 0; i-- {
+		j := r.Intn(i + 1)
+		args[i], args[j] = args[j], args[i]
+	}
+	c.Case(func() interface{} {
+		return map[string]interface{}{"program": m.Desc, "argv": fmt.Sprintf("%q", args)}
+	})
+	var err error
+	pi := safely(func() { _, err = m.P.ParseArgs(args) })
+	c.Count("parses", 1)
+	if pi != nil {
+		c.Violate("api-added-option:panic:"+panicSite(pi.Stack), "ParseArgs panicked: %s", pi.Value)
+		return
+	}
+	if err != nil {
+		c.Violate("api-added-option:valid-vector-rejected:"+errTypeName(err), "valid vector rejected: %v", err)
+		return
+	}
+	// (shuffling the vector changes the order between options, not between the occurrences of one slice/map option
+	// in a way the canonical text could see: recompute in vector order)
+	for _, o := range m.Opts {
+		var cli []string
+		for _, t := range args {
+			i := strings.Index(t, "=")
+			if t[:i] == "--"+o.Full || (o.Short != 0 && t[:i] == "-"+string(o.Short)) {
+				cli = append(cli, t[i+1:])
+			}
+		}
+		if cli != nil {
+			want[o.apiOpt] = canonTexts(o.Kind, cli)
+		}
+	}
+	if sig, msg := apiCompare(m.apiOpts(), want, true); sig != "" {
+		c.Violate("source:"+sig, "%s", msg)
+		return
+	}
+	c.Held("api-added/sources", src)
+}
+
+// apiMiniRequired (C06): a missing required added option is demanded by name, a supplied one is not, and one that
+// belongs to a command that was not selected is not.
+func apiMiniRequired(c *Ctx) {
+	r := c.Sub("api-mini")
+	m := buildMini(r, true)
+	var args, cmdArgs []string
+	useCmd := m.HasCmd && r.Bool()
+	missing := map[*miniOpt]bool{}
+	shape := ""
+	for _, o := range m.Opts {
+		supplied := r.Bool()
+		if o.CmdHome && !useCmd {
+			supplied = false // its name is unknown outside the command
+		}
+		if supplied {
+			name := "--" + o.Full
+			if o.Short != 0 && r.Bool() {
+				name = "-" + string(o.Short)
+			}
+			vs := apiGood[o.Kind]
+			t := name + "=" + vs[r.Intn(len(vs))]
+			if o.CmdHome {
+				cmdArgs = append(cmdArgs, t)
+			} else if useCmd && r.Bool() {
+				cmdArgs = append(cmdArgs, t) // options of the parser stay valid after the command word
+			} else {
+				args = append(args, t)
+			}
+		}
+		if o.Required && !supplied && (!o.CmdHome || useCmd) {
+			missing[o] = true
+		}
+		shape += fmt.Sprintf("%v/%v/%v,", o.Required, supplied, o.CmdHome)
+	}
+	if useCmd {
+		args = append(append(args, "run"), cmdArgs...)
+	}
+	c.Case(func() interface{} {
+		return map[string]interface{}{"program": m.Desc, "argv": fmt.Sprintf("%q", args)}
+	})
+	var err error
+	pi := safely(func() { _, err = m.P.ParseArgs(args) })
+	c.Count("parses", 1)
+	if pi != nil {
+		c.Violate("api-added-option:panic:"+panicSite(pi.Stack), "ParseArgs panicked: %s", pi.Value)
+		return
+	}
+	if len(missing) == 0 {
+		if err != nil {
+			c.Violate("api-added-option:nothing-missing-but-rejected:"+errTypeName(err), "every required option was supplied, yet: %v", err)
+			return
+		}
+		c.Held("api-added/required/none-missing", shape)
+		return
+	}
+	fe, ok := err.(*flags.Error)
+	if err == nil {
+		c.Violate("api-added-option:missing-required-accepted", "%d required option(s) not supplied but the parse succeeded", len(missing))
+		return
+	}
+	if !ok || fe.Type != flags.ErrRequired {
+		c.Violate("api-added-option:required:wrong-error:"+errTypeName(err), "required option missing, error is %v", err)
+		return
+	}
+	for _, o := range m.Opts {
+		named := strings.Contains(fe.Message, "--"+o.Full+"'")
+		if named != missing[o] {
+			c.Violate(fmt.Sprintf("api-added-option:required:message:named=%v", named), "option --%s: missing=%v but the message is %q", o.Full, missing[o], fe.Message)
+			return
+		}
+	}
+	c.Held("api-added/required/missing", shape)
 }
